@@ -45,7 +45,13 @@ async fn connect(store: Arc<dyn ObjectStore>) -> (AppState, Router) {
     (state, app)
 }
 
+/// keys the server generated in this run (db.set_api_key without a key): "ga" / "gb" -> the returned key
+static GENERATED: std::sync::Mutex<BTreeMap<String, String>> = std::sync::Mutex::new(BTreeMap::new());
+
 fn token_value(t: &str) -> Option<String> {
+    if let Some(k) = GENERATED.lock().unwrap().get(t) {
+        return Some(format!("Bearer {k}"));
+    }
     match t {
         "none" => None,
         "garbage" => Some("Bearer not-a-key-at-all".to_string()),
@@ -144,6 +150,14 @@ async fn apply_op(app: &Router, op: &Value) -> &'static str {
         "close" => admin(app, "/", "db.close", json!({"name": d})).await,
         "setkey" => admin(app, "/", "db.set_api_key", json!({"name": d, "api_key": key_value(op[2].as_str().unwrap())})).await,
         "removekey" => admin(app, "/", "db.remove_api_key", json!({"name": d})).await,
+        "genkey" => {
+            // no api_key: the server generates one and returns it
+            let r = admin(app, "/", "db.set_api_key", json!({"name": d})).await;
+            if let Some(k) = r.json["result"]["api_key"].as_str() {
+                GENERATED.lock().unwrap().insert(format!("g{d}"), k.to_string());
+            }
+            r
+        }
         o => panic!("op {o}"),
     };
     res_class(&r)
@@ -173,6 +187,7 @@ struct Tally {
 
 async fn run_case(case: &Value, variant: &str, full: bool, tally: &mut Tally, out: &mut Vec<Value>) {
     let store: Arc<dyn ObjectStore> = Arc::new(InMemory::new());
+    GENERATED.lock().unwrap().clear();
     let (mut state, mut app) = connect(store.clone()).await;
     let mut report = |what: String, detail: Value, tally: &mut Tally| {
         tally.mismatches += 1;
@@ -208,7 +223,7 @@ async fn run_case(case: &Value, variant: &str, full: bool, tally: &mut Tally, ou
     admin(&app, &format!("/{PRIMARY}"), "db.save_extension", json!({"key": "marker", "value": PRIMARY})).await;
     let before = snapshot(&app).await;
     let scopes = ["root", PRIMARY, "a", "b", "missing", "bad"];
-    let tokens = ["none", "garbage", "adm", "k1", "k2", "k3"];
+    let tokens = ["none", "garbage", "adm", "k1", "k2", "k3", "ga", "gb"];
     let mut bodies401: BTreeMap<bool, BTreeSet<Vec<u8>>> = BTreeMap::new();
     let mut methods: Vec<(&str, usize)> = Vec::new(); // (name, kind index: 0 root, 1 db, 2 both, 3 unknown)
     if full {
